@@ -98,6 +98,10 @@ def call_pool(rng, n_per_kind):
         calls.append({"kind": "dump_many", "fmt": fmt, "seed": rng.randint(0, 10**6), "n": 3})
     for prog in ("gaussian", "orca"):
         calls.append({"kind": "write_input", "fmt": prog, "seed": rng.randint(0, 10**6)})
+        calls.append({"kind": "write_input", "fmt": prog, "seed": rng.randint(0, 10**6)})
+        # keyword arguments of one call say nothing about the next one
+        calls.append({"kind": "write_input", "fmt": prog, "seed": rng.randint(0, 10**6),
+                      "kwargs": {"charge": -1, "spinmult": 2, "title": "radical anion", "lot": "CCSD", "run_type": "opt"}})
     # conversions (load then dump) and failing calls
     conv = [("water.xyz", "xyz", "sdf"), ("water.mol2", "mol2", "pdb"), ("h2o_sto3g.fchk", "fchk", "molden"),
             ("h2o_sto3g.fchk", "fchk", "wfx"), ("h2o_sto3g.wfn", "wfn", "fchk"), ("water_sto3g_hf_g03.fchk", "fchk", "wfn"),
@@ -129,7 +133,8 @@ def run_call(c, tmp):
                 return "obj:" + digest(api.load_one(c["path"], fmt=c["fmt"]))
             if k == "load_many":
                 return "objs:" + hashlib.sha1(",".join(digest(o) for o in api.load_many(c["path"], fmt=c["fmt"])).encode()).hexdigest()
-            out = os.path.join(tmp, c["id"] + "_" + threading.current_thread().name + ".out")
+            # all outputs of a run live in one directory and differ only in their extension (like o2.molden, o2.fchk, o2.wfn)
+            out = os.path.join(tmp, "out." + c["id"] + "_" + threading.current_thread().name)
             if k == "dump_one":
                 obj = O.make(c["fmt"], random.Random(c["seed"]), c["variant"])
                 api.dump_one(obj, out, fmt=c["fmt"], allow_changes=c["allow"])
@@ -143,7 +148,7 @@ def run_call(c, tmp):
                 api.dump_many(iter(objs), out, fmt=c["fmt"])
             elif k == "write_input":
                 obj = O.make("xyz", random.Random(c["seed"]), "plain")
-                api.write_input(obj, out, c["fmt"])
+                api.write_input(obj, out, c["fmt"], **c.get("kwargs", {}))
             elif k == "convert":
                 from iodata.__main__ import convert
                 convert(c["path"], out, infmt=c["fmt"], outfmt=c["out"], allow_changes=True)
